@@ -21,6 +21,14 @@ def handleReject (op : String) (j : Json) : Option Json :=
       let i := sdkMeasBasis q m x1 y x2
       pure (Json.mkObj [("i", instrToJson i), ("b", ofOpt ofNats (encodeInstr T i))])
     | _ => none
+  else if op == "reject.sdkbrk" then do
+    let T ← (jField? j "fl").bind jStr? |>.bind tableOf
+    let a ← (jField? j "a").bind jInts?
+    match a with
+    | [x, y] =>
+      let i := sdkBreakpoint x y
+      pure (Json.mkObj [("i", instrToJson i), ("b", ofOpt ofNats (encodeInstr T i))])
+    | _ => none
   else if op == "reject.encsub" then do
     let T ← (jField? j "fl").bind jStr? |>.bind tableOf
     let v0 ← (jField? j "v0").bind jInt?
